@@ -17,6 +17,15 @@ CHECKS = {
  "C06": ("exploration", "bounded exhaustive enumeration of forged tables x all filter settings, real filter/align vs the row predicate of the statement",
          "Rows are independent in every filter, so all rows over the 16-symbol alphabet (1..3 samples), all ordered pairs/triples of representative rows (alignment of the parallel vectors under removal) and pattern rows up to 12 samples, each under all 4x2x2x2 settings and every threshold, cover the predicate completely for the row and the bookkeeping for the table.",
          "Forged tables enter through the public MergeSkaDict::build_from_array/MergeSkaArray::new; all-gap rows excluded as unreachable.", "DESIGN.md §5 C06"),
+ "C07": ("model_checking", "explicit-state search (level-synchronous BFS with state de-duplication) over pools of .skf files, real merge as transition function, invariant = model joint table + real joint build",
+         "All ordered sample lists are built, then every ordered selection of 2..4 disjoint files is merged by the real function and the result is a new state unless its full content (hidden fields included) equals a known one; the search closes exactly when merged files are indistinguishable from built files. Every partition/order/nesting for n<=5 is covered, at both integer widths and the 31/33 boundary.",
+         "Canonical (row-sorted) states; guarded by re-running merge trees through the CLI. Refusals are checked through the CLI.", "DESIGN.md §5 C07"),
+ "C08": ("model_checking", "explicit-state BFS over the subset lattice with the real delete as transition function; invariant = model table + real fresh build incl. stored counts",
+         "From the full file every non-empty proper subset is deleted, from every reached state again, so each of the 2^n-1 sample sets is reached along every chain and compared with a fresh build; the CLI family enumerates both ways of passing names, in-place/-o and the refusals (file must stay byte-identical).",
+         "Canonical (row-sorted) states; CLI family is an enumeration of routes, not a search.", "DESIGN.md §5 C08"),
+ "C10": ("model_checking", "explicit-state BFS (depth-bounded, full-content state de-duplication) with the real merge/delete/weed/filter/reload as transitions; invariant = every observer agrees with a reference model that has no hidden state",
+         "The state carries the hidden fields, the model does not: any dependence of a later align/map/distance/nk on history shows up as an observer disagreement in some reached state. Histories to depth 3 (quick) / 5 (thorough) from three start tables, ~140 actions per state.",
+         "Depth-bounded, one k (7) and three start tables; canonicalisation guarded by CLI re-execution of the longest paths (traces_validated_against_impl).", "DESIGN.md §5 C10"),
  "C14": ("exploration", "bounded exhaustive enumeration of unambiguous tables x thresholds x flags, real distance output vs model, byte-exact",
          "All tables of up to 3 rows over {A,C,G,-}^n for n=2..4, pattern rows to 12 samples, all thresholds, both ambiguity flags, sample permutations: Hamming/Jaccard integers and the bookkeeping of pre-filtered constant sites are decided per pair on every table.",
          "Same formatting of the same single division as the CLI; threads=1 (thread variation is C11's).", "DESIGN.md §5 C14"),
